@@ -903,6 +903,87 @@ fn us_arrests() -> Rows {
 }
 
 // ------------------------------------------------------------------------------------------
+// api_trait_twin: fit / transform through `smartcore::api::{UnsupervisedEstimator, Transformer}` give
+// exactly what the inherent methods give (training matrix and fresh rows, model fitted either way)
+// ------------------------------------------------------------------------------------------
+/// mode: "pca" (covariance), "pca_cor" (correlation), "tsvd"
+fn twin_dec(x: &Rows, fresh: &Rows, k: usize, mode: &str) -> Option<twin::Diff> {
+    type DM = DenseMatrix<f64>;
+    if x.is_empty() || x[0].is_empty() || fresh.is_empty() {
+        return None;
+    }
+    let m = dense(x);
+    let f = dense(fresh);
+    let probes = [("the training matrix", &m), ("the fresh rows", &f)];
+    if mode == "tsvd" {
+        let p = SVDParameters::default().with_n_components(k);
+        twin::check(
+            "UnsupervisedEstimator",
+            "Transformer",
+            "transform",
+            || twin::fit_unsup::<SVD<f64, DM>, _, _>(&m, p.clone()),
+            || SVD::<f64, DM>::fit(&m, p.clone()),
+            |e: &SVD<f64, DM>, z: &DM| twin::transform(e, z),
+            |e: &SVD<f64, DM>, z: &DM| e.transform(z),
+            &probes,
+            |e: &SVD<f64, DM>| serde_json::to_string(e).unwrap_or_default(),
+            true,
+        )
+    } else {
+        let p = PCAParameters::default().with_n_components(k).with_use_correlation_matrix(mode == "pca_cor");
+        twin::check(
+            "UnsupervisedEstimator",
+            "Transformer",
+            "transform",
+            || twin::fit_unsup::<PCA<f64, DM>, _, _>(&m, p.clone()),
+            || PCA::<f64, DM>::fit(&m, p.clone()),
+            |e: &PCA<f64, DM>, z: &DM| twin::transform(e, z),
+            |e: &PCA<f64, DM>, z: &DM| e.transform(z),
+            &probes,
+            |e: &PCA<f64, DM>| serde_json::to_string(e).unwrap_or_default(),
+            true,
+        )
+    }
+}
+fn check_twin(out: &mut Out, x: &Rows, fresh: &Rows, k: usize, mode: &str, fam: &str) {
+    let mut key: Vec<f64> = x.iter().flatten().cloned().collect();
+    key.extend(fresh.iter().flatten());
+    key.extend(&[k as f64, mode.len() as f64, -7.0]);
+    out.eval(hash_f64s(&key), x.len() >= 3 && x[0].len() >= 2 && k >= 1);
+    out.count(&format!("twin:{}:{}", mode, fam));
+    if twin_dec(x, fresh, k, mode).is_none() {
+        return;
+    }
+    // shrink: fewer fresh rows, fewer training rows
+    let (mut cx, mut cf) = (x.clone(), fresh.clone());
+    let mut progress = true;
+    while progress {
+        progress = false;
+        let mut i = 0;
+        while cf.len() > 1 && i < cf.len() {
+            let mut t = cf.clone();
+            t.remove(i);
+            if twin_dec(&cx, &t, k, mode).is_some() { cf = t; progress = true; } else { i += 1; }
+        }
+        let mut i = 0;
+        while cx.len() > 2 && i < cx.len() {
+            let mut t = cx.clone();
+            t.remove(i);
+            if twin_dec(&t, &cf, k, mode).is_some() { cx = t; progress = true; } else { i += 1; }
+        }
+    }
+    if let Some(d) = twin_dec(&cx, &cf, k, mode) {
+        out.count(&format!("twin:failing:{}", if mode == "tsvd" { "SVD" } else { "PCA" }));
+        out.fail(
+            twin::ORACLE,
+            &format!("{}: {}: {}", if mode == "tsvd" { "SVD" } else { "PCA" }, d.call, d.what),
+            json!({"entry": "twin", "oracle": twin::ORACLE, "estimator": if mode == "tsvd" { "decomposition::svd::SVD" } else { "PCA" }, "mode": mode,
+                   "x": cx, "fresh": cf, "k": k, "corr": mode == "pca_cor", "differing_call": d.call}),
+        );
+    }
+}
+
+// ------------------------------------------------------------------------------------------
 // replay / corpus
 // ------------------------------------------------------------------------------------------
 fn replay_into(out: &mut Out, inp: &Value, fam: &str, stat: &mut Stat) -> bool {
@@ -917,6 +998,14 @@ fn replay_into(out: &mut Out, inp: &Value, fam: &str, stat: &mut Stat) -> bool {
         "tsvd" => check_tsvd(out, &x, k, aux, fam, stat),
         "pca_unit" => check_unit(out, &x, k, inp["corr"].as_bool().unwrap_or(false), false, inp["shift"].as_i64().unwrap_or(0) as i32, fam),
         "tsvd_unit" => check_unit(out, &x, k, false, true, inp["shift"].as_i64().unwrap_or(0) as i32, fam),
+        "twin" => {
+            let fresh = rows_from_json(&inp["fresh"]);
+            let mode = inp["mode"].as_str().unwrap_or("pca").to_string();
+            if let Some(d) = twin_dec(&x, &fresh, k, &mode) {
+                println!("  {}: {}: {}", twin::ORACLE, d.call, d.what);
+                out.fail(twin::ORACLE, &d.what, json!({}));
+            }
+        }
         _ => return false,
     }
     true
@@ -964,7 +1053,7 @@ fn main() {
     let mut rng = Rng::new(a.seed);
     let mut out = Out::new(
         "C14",
-        "search case = (estimator PCA-cov / PCA-cor / truncated SVD, data matrix n x p, k); non-trivial: n >= 3, p >= 2, k >= 1 and the call is not a rejection; distinct by hash of (data, k, mode)",
+        "search case = (estimator PCA-cov / PCA-cor / truncated SVD, data matrix n x p, k); non-trivial: n >= 3, p >= 2, k >= 1 and the call is not a rejection; distinct by hash of (data, k, mode). api-trait twin case = a search case fitted and applied through smartcore::api::{UnsupervisedEstimator, Transformer} and through the inherent methods (training matrix and fresh rows); all results must coincide bit for bit",
     );
     let mut stat = Stat { worst: 0.0 };
 
@@ -1107,6 +1196,25 @@ fn main() {
             }
             check_unit(&mut out, &x, rng.usize_in(1, p - 1), false, true, shift, FAMILIES[fam]);
         }
+    }
+    // ---- api-trait twins (last: the streams of the sections above are unchanged) ----
+    for i in 0..(if a.thorough { 400 } else { 50 }) {
+        let p = rng.usize_in(1, 6);
+        let n = match i % 4 {
+            0 => rng.usize_in(2, p.max(2)),
+            1 => p + 1,
+            _ => rng.usize_in(2, 30),
+        };
+        let fam = i % FAMILIES.len();
+        let x = gen_data(&mut rng, n, p, fam);
+        if !finite_rows(&x) {
+            continue;
+        }
+        let fresh: Rows = (0..3).map(|_| { let r = rng.pick(&x).clone(); r.iter().map(|v| v * rng.uniform(0.5, 1.5) + 0.25 * rng.normal()).collect() }).collect();
+        // any k, incl. 0 and p + 1 (rejections through both entry points)
+        check_twin(&mut out, &x, &fresh, rng.usize_in(0, p + 1), "pca", FAMILIES[fam]);
+        check_twin(&mut out, &x, &fresh, rng.usize_in(1, p), "pca_cor", FAMILIES[fam]);
+        check_twin(&mut out, &x, &fresh, rng.usize_in(0, p), "tsvd", FAMILIES[fam]);
     }
     out.set("worst_error_over_allowance", json!(stat.worst));
     out.finish(&a.out);
